@@ -536,3 +536,21 @@ def tt1(ctx, R):
             tab = None
         R.check(tab == {"s": 1e0, "ms": 1e3, "us": 1e6, "ns": 1e9}, "tdms.TdmsChannel.time_track::unit table", fi.where(), "units per second table",
                 "unit correction table is %s" % tab)
+
+
+@rule("TW1", "the writer never routes raw timestamp records through the lossy datetime64 conversion", floor=1)
+def tw1(ctx, R):
+    """TimestampArray / TdmsTimestamp hold the exact 2**-64 s fractions; as_datetime64() keeps at most the requested resolution.  A
+    call of it anywhere on the writer side (module nptdms.writer and the type constructors it uses) would write truncated timestamps
+    where the exact records were available (defragment copies channel data read with raw_timestamps=True)."""
+    prog = ctx.prog
+    n = 0
+    for f in sorted(prog.functions.values(), key=lambda f: f.qual):
+        if f.module.name != "writer":
+            continue
+        n += 1
+        calls = [c for c in walk_body(f.node) if isinstance(c, ast.Call) and isinstance(c.func, ast.Attribute) and c.func.attr == "as_datetime64"]
+        if calls:
+            R.violation("%s::as_datetime64" % f.qual, f.where(calls[0]), "`%s`: raw timestamp records are converted to datetime64 on the way to the file, which drops "
+                        "everything below the conversion's resolution (the exact 16-byte records could have been written through)" % unparse(calls[0])[:80])
+    R.ok("writer::no lossy timestamp conversion", "%s:1" % prog.module("writer").relpath, "%d writer functions, none calls as_datetime64()" % n)
